@@ -141,7 +141,7 @@ def run(ctx):
     if ctx.quick:
         boxes = {("chain", 1, 1), ("chain", 2, 1), ("chain", 3, 1), ("quad", 2, 2), ("tri", 1, 1)}
         consts = dict(Boxes=boxes, MaskBits=2, SplitChoices={-1, 1}, MaxCells=8, SignPeriod=3, BcPeriod=2,
-                      PsiVals={-1, 0, 2}, MaxChainFaces=3, Masks={0, 1})
+                      PsiVals={-1, 0, 2}, MaxChainFaces=4, Masks={0, 1})
         sel_recipes = [["cart", [2, 2]], ["cart", [3, 2]], ["frac", [[[1, 1], [0, 1]]], [2, 2], 0]]
         t_recipes = [["cart", [3, 3]]]
     else:
